@@ -20,7 +20,7 @@ ID = "C16"
 LEVEL = "model_checking"
 TECHNIQUE = "explicit-state BFS over cache contents with the switch cross product chosen per transition; counters of bodies, effects, log requests and emitted records as oracle; differential value oracle against the all-switches-off twin"
 RULE = (
-    "graphs: single, diamond, pre-set options, Map over a cached dataset, overload by dataset, dataset with a "
+    "graphs: single, diamond, pre-set options, Map over a cached dataset, overload by dataset, with_options / with_default_options derivatives next to their dataset, dataset with a "
     "LogEffect, each built with memory caches and with nocache; actions = dictionary x 4 cache settings x 3 effect "
     "settings x 3 logging settings (36 switch combinations); BFS with canonical cache-state dedup to depth 3 quick / "
     "4 thorough.  Checked per transition: value = twin; cache disabled => bodies run exactly as in the memo-free twin "
@@ -53,6 +53,11 @@ def _graphs():
     G.append(("map", m, [("M", [ABSENT, [2, 3]])]))
     ov = ("ds", "ov", {"params": [("opt", "A")], "dispatch": ("optkey", "D"), "overloads": [("x", ("ds", "implx", {"params": [("opt", "B", ("val", 0))], "effects": ["ex"]}))], "effects": ["eo"]})
     G.append(("overload", ov, [("A", [1, 2]), B2, ("D", [ABSENT, "x"])]))
+    # derivatives made with with_options / with_default_options share everything with their dataset - also its
+    # being declared nocache
+    base = ("ds", "base", {"params": [("opt", "A"), ("opt", "B", ("val", 0))], "effects": ["eb"]})
+    dv = ("ds", "dv", {"params": [("dswo", base, {"B": 9}), ("dswdo", base, {"B": 7}), base], "effects": ["ed"]})
+    G.append(("derivatives", dv, [A3, B2]))
     le = ("ds", "le", {"params": [inner], "effects": ["log:audit", "elog"]})
     G.append(("log-effect", le, [A3]))
     return G
@@ -121,6 +126,8 @@ class Rig:
         self.names = {n[1]: dsprops(n) for n in walk(self.term) if n[0] == "ds"}
         self.capture = Capture()
         self.logger = pylogging.getLogger("labmc_fixture")
+        # with_options / with_default_options derivatives log under the library's own module name
+        self.logger2 = pylogging.getLogger("labrea.dataset")
         self.requests = []
         self.logeffects = {n: sum(1 for e in p["effects"] if isinstance(e, str) and e.startswith("log:")) for n, p in self.names.items()}
 
@@ -147,9 +154,11 @@ class Rig:
         self.capture.records = []
         self.requests = []
         old_level, old_prop = self.logger.level, self.logger.propagate
-        self.logger.setLevel(pylogging.INFO)
-        self.logger.propagate = False
-        self.logger.addHandler(self.capture)
+        old_level2, old_prop2 = self.logger2.level, self.logger2.propagate
+        for lg in (self.logger, self.logger2):
+            lg.setLevel(pylogging.INFO)
+            lg.propagate = False
+            lg.addHandler(self.capture)
         prev = runtime.current_runtime().handlers[LogRequest]
 
         def recorder(request):
@@ -158,11 +167,12 @@ class Rig:
 
         # the per-dataset toggle is put into the wanted position before every evaluation with plain,
         # idempotent calls (disable_effects() / enable_effects() are switches, not a counter)
-        for d in self.w.datasets.values():
+        for d in [d[1] for d in self.w.datasets.values()] + [n for n in self.w.nodes.values() if hasattr(n, "disable_effects")]:
+            # every dataset object of the graph, derivatives included
             if e == "toggle":
-                d[1].disable_effects()
+                d.disable_effects()
             else:
-                d[1].enable_effects()
+                d.enable_effects()
         try:
             with runtime.handle(LogRequest, recorder):
                 ctxs = []
@@ -180,9 +190,10 @@ class Rig:
                     for cm in reversed(ctxs):
                         cm.__exit__(None, None, None)
         finally:
-            self.logger.removeHandler(self.capture)
-            self.logger.setLevel(old_level)
-            self.logger.propagate = old_prop
+            for lg, lv, pr in ((self.logger, old_level, old_prop), (self.logger2, old_level2, old_prop2)):
+                lg.removeHandler(self.capture)
+                lg.setLevel(lv)
+                lg.propagate = pr
         return got, list(self.w.log), list(self.capture.records), list(self.requests)
 
 
